@@ -34,8 +34,8 @@ func H_C18() {
 	}
 	ko, _ := enc.NewSecretbox(linkKeyBytes(9))
 	ioW := base.ApplyOptions(&cbor.Options{LinkKey: kw})
-	nNext := vx.Choice("nNext", 3)
-	nRefs := vx.Choice("nRefs", 3)
+	nNext := []int{0, 1, 2, 9}[vx.Choice("nNext", 3+vx.Param("MANY", 0))] // MANY=1: also a wide merge entry (9 predecessors)
+	nRefs := []int{0, 1, 2, 9}[vx.Choice("nRefs", 3+vx.Param("MANY", 0))]
 	next, refs := cids(10, nNext), cids(20, nRefs)
 	var copts *iface.CreateEntryOptions
 	switch vx.Choice("createOpts", 3) {
